@@ -241,16 +241,15 @@ theorem invDone_rep {req : ReqId} {s : Sess} (h : RepInv req s) (r : ReqId) (o :
       · exact key _ _ h0 rfl (by simp [accepts]) (by simp [terminals]) (fun _ => by simp [terminals])
       · obtain ⟨c1, c2, c3, c4, c5⟩ := sendWithFallback_rep (req := req) h0 r { typ := .yield_, req := r, args := _, kwargs := _ }
         exact key _ _ c1 c2 c3 c4 (fun hne => c5 hne rfl)
-    · split
+    · next e =>
+      split
       · exact key _ _ h0 rfl (by simp [accepts, acceptFor]) (by simp [terminals, terminalFor]) (fun _ => by simp [terminals, terminalFor])
-      · split
-        · exact key _ _ h0 rfl (by simp [accepts, acceptFor]) (by simp [terminals, terminalFor]) (fun _ => by simp [terminals, terminalFor])
-        · next u a k _ _ =>
-          obtain ⟨c1, c2, c3, c4, c5⟩ := sendWithFallback_rep (req := req) h0 r { typ := .error, req := r, uri := u, args := a, kwargs := k }
-          refine key _ _ c1 c2 ?_ ?_ (fun hne => ?_)
-          · simpa [accepts, List.countP_cons, acceptFor] using c3
-          · simpa [terminals, List.countP_cons, terminalFor] using c4
-          · simpa [terminals, List.countP_cons, terminalFor] using c5 hne rfl
+      · obtain ⟨c1, c2, c3, c4, c5⟩ := sendWithFallback_rep (req := req) h0 r
+          { typ := .error, req := r, uri := e.errorReply.1, args := e.errorReply.2.1, kwargs := e.errorReply.2.2 }
+        refine key _ _ c1 c2 ?_ ?_ (fun hne => ?_)
+        · simpa [accepts, List.countP_cons, acceptFor] using c3
+        · simpa [terminals, List.countP_cons, terminalFor] using c4
+        · simpa [terminals, List.countP_cons, terminalFor] using c5 hne rfl
 
 theorem alookup_aupd_isSome {β : Type} (k k' : Nat) (v : β) (l : List (Nat × β)) :
     (alookup k (aupd k' v l)).isSome = (alookup k l).isSome := by
